@@ -22,7 +22,7 @@ TO == Obs.truth_o
 FX == Obs.found_x
 FO == Obs.found_o
 XI == 1..Len(TX)
-XF == [k \in XI |-> [mono |-> TX[k].mono = 1, inwall |-> TX[k].inwall = 1, insol |-> TX[k].insol = 1, below |-> TX[k].below = 1]]
+XF == [k \in XI |-> [mono |-> TX[k].mono = 1, inwall |-> TX[k].inwall = 1, insol |-> TX[k].insol = 1, below |-> TX[k].below = 1, open |-> TX[k].open = 1]]
 VisibleT == {k \in XI : TX[k].mono = 1}
 
 RegionKind(names) ==
@@ -59,7 +59,7 @@ Judge ==
   /\ done' = TRUE /\ UNCHANGED <<tid, vars>>
 
 TInit == /\ tid \in 1..Len(JT) /\ done = FALSE
-         /\ xf = [k \in XPts |-> [mono |-> TRUE, inwall |-> TRUE, insol |-> TRUE, below |-> TRUE]]
+         /\ xf = [k \in XPts |-> [mono |-> TRUE, inwall |-> TRUE, insol |-> TRUE, below |-> TRUE, open |-> TRUE]]
          /\ rawO = <<>> /\ rawX = <<>> /\ ol = <<>> /\ xl = <<>> /\ stage = "scan" /\ kept = <<>> /\ verdict = "none"
 TSpec == TInit /\ [][Judge]_<<tid, done, vars>>
 =============================================================================
